@@ -397,6 +397,15 @@ func (c *FnCtx) builtin(p *Path, b *ssa.Builtin, call *ssa.CallCommon, args []Va
 		p.heap.m[base+"#len"] = fmt.Sprintf("(store %s %s (ite %s (- (select %s %s) 1) (select %s %s)))", la, m.T, was, la, m.T, la, m.T)
 		p.heap.m[base+"#present"] = fmt.Sprintf("(store %s %s (store (select %s %s) %s false))", pa, m.T, pa, m.T, kt)
 		return []outcome{{p: p}}
+	case "close":
+		// close(ch) panics on a nil channel and on a channel that is already closed; afterwards the channel is closed
+		// (the same ghost the cancellation poll reads)
+		ch := args[0]
+		arr := c.heapGet(&p.heap, "$g:chanClosed", "(Array Int Bool)")
+		c.oblige(p, "safe", "close_of_nil_or_closed_channel", fmt.Sprintf("(and (not (= %s 0)) (not (select (select %s 0) %s)))", ch.T, arr, ch.T),
+			"close of a channel that is nil or may already be closed (the second close panics)", nil)
+		p.heap.m["$g:chanClosed"] = fmt.Sprintf("(store %s 0 (store (select %s 0) %s true))", arr, arr, ch.T)
+		return []outcome{{p: p}}
 	case "recover":
 		fr := p.top()
 		// recover() is meaningful in a deferred closure: look at the frame that is running defers
